@@ -12,8 +12,9 @@ CFG = {
     "judge": "judge09",
     "rule": "valid streams only: a live HttpServer with a compiled-in family of ECHO endpoints (Path<{v:T}> and "
             "Query<{v:T, o:Option<T>, #[serde(default)] d:T}> for T in String, u8..u128, i8..i128, bool, char, a "
-            "unit-variant enum with renamed variants; a multi-variable path with a renamed field; a typed variable + "
-            "wildcard Vec<String>; an Option path field; a mixed query struct; TypedBody JSON (incl. Vec<u32>, "
+            "unit-variant enum with renamed variants, uuid::Uuid (hyphenated / simple / braced / urn, either hex case); a multi-variable path with a renamed field; a typed variable + "
+            "wildcard Vec<String>; typed wildcards Vec<Color>, Vec<Uuid>, Vec<String> alone and Vec<char> / Vec<Color> "
+            "behind a typed variable (0-6 elements, the echoed Vec must be the decoded elements in order); an Option path field; a mixed query struct; TypedBody JSON (incl. Vec<u32>, "
             "Option, default), TypedBody url-encoded, UntypedBody, StreamingBody, MultipartBody; one endpoint with "
             "Path+Query+TypedBody). Values from edge-biased generators (empty string, reserved and non-ASCII "
             "characters, 4-byte UTF-8, NUL, '+', '%', '&', '=', '/', '?', '#', space, MIN/MAX of every width, "
